@@ -2095,6 +2095,13 @@ def rule_reuse(prog):
                     pl = hir.path_local(pth)
                     if pl and pl["id"] in defs:
                         conds.append(defs[pl["id"]])
+                    # (a flag that is set in a loop over the node's errors: `for err in .. { if matches!(err.1, ParseErrorMessage(_)) { flag = true; break; } }`)
+                    if pl and pl["id"] not in defs or (pl and hir.strip(defs.get(pl["id"], {})).get("k") == "Lit"):
+                        for lp in hir.nodes(b["body"]):
+                            if lp.get("k") in ("ForLoop", "While", "Loop") and any(
+                                    a_.get("k") == "Assign" and (hir.path_local(hir.strip(a_["l"])) or {}).get("id") == pl["id"]
+                                    for a_ in hir.nodes(lp["body"])):
+                                conds.append(lp["body"])
                 for cd in conds:
                     # (the test may be a named helper: `contains_syntax_error(&node.errors())`)
                     for m_ in hir.nodes_deep(prog, cd, 2, crate=c):
